@@ -1,53 +1,5 @@
-"""C02 (same jobs as C01) -- C01 / C02 -- B+ tree containers: observational equality with the std ordered containers (C01) and balance/order
-invariants + exact allocation (C02).  Both properties are decided by the same jobs (props/C02.py re-exports them)."""
-from vlib import Job
-
-LABEL = 'bounded: trees of depth <= 2 (<= %d keys) before and after the operation; leaf/inner slots %d/%d'
-
-
-def cfg_jobs(multi, binsearch, greater, tier, ls=4, is_=4):
-    js = []
-    cname = 'multiset' if multi else 'set'
-    tag = '%s_%s_%s' % (cname, 'bin' if binsearch else 'lin', 'gt' if greater else 'lt')
-    sd = ['LS=%d' % ls, 'IS=%d' % is_, 'BIN=%d' % binsearch, 'MULTI=%d' % multi, 'MAP=0', 'GREATER=%d' % greater]
-    BTF = r'tlx::BTree<unsigned char, unsigned char, .*>::'
-    def J(name, op, enforce, fns, extra=(), timeout=1800, cbmc_flags=(), **kw):
-        # the full set of CBMC 6 standard checks (signed overflow, pointer primitives, ...) makes these jobs run for > 20 min;
-        # pointer and bounds checks (what C02's "no access to released storage" needs) are kept
-        cbmc_flags = ['--no-standard-checks', '--pointer-check', '--bounds-check'] + list(cbmc_flags)
-        js.append(Job(name='%s_%s' % (name, tag), shim='btree', contract='c01_btree.c', harness='h_' + name, enforce=[enforce] if isinstance(enforce, str) else enforce,
-                      shim_defines=sd, defines=['OP_' + op] + sd + list(extra), functions=[BTF + f for f in fns], unwind=max(ls, is_) + 3, timeout=timeout, tier=tier,
-                      resolve_types={'LEAF_T': r'___LeafNode$', 'INNER_T': r'___InnerNode$', 'NODE_T': r'___node$', 'BT_T': r'^S_class_tlx__btree_(multi)?set$'},
-                      label=LABEL % ((is_ + 1) * ls, ls, is_), object_bits=10, mode='assert', backend='cadical', cbmc_flags=cbmc_flags, **kw))
-    J('ctor', 'ctor', 'c_ctor', [r'BTree\('], what='default construction: empty well-formed tree')
-    J('insert', 'insert', 'c_insert', [r'insert_start\(', r'insert_descend\(', r'split_leaf_node\(', r'find_lower<'],
-      what='insert(k) from any well-formed tree of depth <= 2 with a non-full root: invariants, view + {k}, returned position, node ledger')
-    J('erase_one', 'erase', 'c_erase', [r'erase_one\(', r'erase_one_descend\(', r'merge_leaves\(', r'shift_left_leaf\(', r'shift_right_leaf\('], ['KIND=0'],
-      what='erase_one(k) from any well-formed tree of depth <= 2: invariants (all six leaf-level underflow cases), view - {k}, node ledger')
-    J('erase_all', 'erase', 'c_erase', [r'erase\(unsigned char const&\)'], ['KIND=1'], cbmc_flags=['--unwind', str((is_ + 1) * ls + 2)],
-      what='erase(k): all occurrences removed, returns their number')
-    J('lookup', 'lookup', 'c_lookup', [r'exists\(', r'count\(', r'size\(\) const', r'empty\(\) const'], what='exists / count / size / empty equal the view')
-    J('bounds', 'lookup', 'c_bound', [r'lower_bound\(unsigned char const&\) const', r'upper_bound\(unsigned char const&\) const', r'find\(unsigned char const&\) const', r'find_upper<'], ['BOUND'],
-      what='lower_bound / upper_bound / find / begin / end return the position with the right rank in leaf-chain order')
-    J('iterate', 'iterate', 'c_step', [r'iterator::operator\+\+\(\)', r'iterator::operator--\(\)'], what='iterator ++ / -- move one position along the leaf chain in both directions')
-    J('clear', 'clear', 'c_clear', [r'clear\(\)', r'clear_recursive\(', r'free_node\('], cbmc_flags=['--unwind', '8'], what='clear() / destructor: every node returned exactly once, tree empty and reusable')
-    return js
-
-
-def jobs(tier):
-    js = []
-    js += cfg_jobs(0, 0, 0, 'quick')
-    js += cfg_jobs(1, 1, 0, 'quick')
-    js += cfg_jobs(0, 1, 1, 'thorough')
-    js += cfg_jobs(1, 0, 1, 'thorough')
-    return js
-
-
-META = {
-    'level': 'other',
-    'assumptions': ['key type unsigned char (8-bit keys keep the order reasoning tractable for the SAT back end), comparators std::less / std::greater, set and multiset (value = key)',
-                    'induction over the operation history is the stated composition step, restricted to trees within the depth bound'],
-    'not_decided': ['trees deeper than 2 levels (inner-level merge/shift/split), insert into a tree whose root inner node is full (growth to depth 3)',
-                    'btree_map / btree_multimap, erase(iterator), copy / assignment / swap / bulk_load / comparison operators, node capacities other than 4/4'],
-    'explanation': 'every listed public operation enforced from an arbitrary well-formed tree of depth <= 2: verify()-conditions as representation invariant, view by ghost key/rank, node allocation ledger',
-}
+"""C02 -- B+ tree structural invariants (balance, fill degrees, key order, leaf chain, node ledger).  Decided by the same
+jobs as C01 (props/C01.py): every job enforces the representation invariant bt_wf and the allocation ledger next to the
+view clauses, so one run settles both properties; this module re-exports the job list so that `./check C02` writes its
+own evidence from its own run."""
+from props.C01 import jobs, META  # noqa: F401
